@@ -312,11 +312,12 @@ def run_long(rec, tier, seed):
                         break
     # queries of different storage types in one call (one-hot seqlets as int8, PWMs as float64 / float32, tensors and arrays)
     oh = lambda L, k: numpy.eye(4, dtype=numpy.int8)[[(i * (k + 1) + k) % 4 for i in range(L)]].T.copy()
-    Qm = [oh(8, 0), pat(12, 1), pat(10, 2).astype(numpy.float32), torch.from_numpy(oh(6, 3)), torch.from_numpy(pat(5, 4))]
-    names = ["int8 one-hot L8", "float64 pwm L12", "float32 pwm L10", "int8 tensor one-hot L6", "float64 tensor pwm L5"]
+    cnt = lambda L, k: numpy.round(pat(L, k) * 20).astype(numpy.int64)           # a position-frequency COUNT matrix (integers, not 0/1)
+    Qm = [oh(8, 0), pat(12, 1), pat(10, 2).astype(numpy.float32), torch.from_numpy(oh(6, 3)), torch.from_numpy(pat(5, 4)), cnt(7, 5), cnt(4, 6).astype(numpy.int32)]
+    names = ["int8 one-hot L8", "float64 pwm L12", "float32 pwm L10", "int8 tensor one-hot L6", "float64 tensor pwm L5", "int64 counts L7", "int32 counts L4"]
     # reference: each query alone, in double precision (float32 input is exactly representable in float64)
     alone_m = [torch.stack(list(TT.tomtom([numpy.asarray(Q).astype(numpy.float64)], Ts, n_jobs=1))).numpy()[:, 0] for Q in Qm]
-    for subset in ([0, 1, 2, 3, 4], [1, 0], [2, 3, 1], [4, 3, 2, 1, 0], [0, 3], [3, 1], [2, 1]):
+    for subset in ([0, 1, 2, 3, 4], [1, 0], [2, 3, 1], [4, 3, 2, 1, 0], [0, 3], [3, 1], [2, 1], [5], [5, 6], [6, 5, 0], [5, 1], [3, 6, 5, 2]):
         st, res = call(TT.tomtom, [Qm[i] for i in subset], Ts, n_jobs=3)
         rec.case(1, 1)
         rec.count("traces_validated_against_impl")
@@ -369,8 +370,26 @@ def run_long(rec, tier, seed):
             if not same(got[:, i], one):
                 rec.violation("tomtom:row_of_large_call_differs_from_single_query_call", dict(case, query_index=i), expected=one[0][:4], observed=got[:, i][0][:4])
                 break
+    # queries x targets beyond 2^22 pairs in one call (8200 PPM queries against 260 targets and their reverse complements)
+    if True:
+        Qhuge = [pat(2 + (k * 7) % 4, k) for k in range(8200)]
+        Thuge = Ts[:260]
+        st, res = call(TT.tomtom, Qhuge, Thuge, n_jobs=8)
+        rec.case(1, 1)
+        rec.count("traces_validated_against_impl")
+        case = dict(fn="tomtom", n_queries=len(Qhuge), n_targets=len(Thuge), n_jobs=8, reverse_complement=True, generator="pat(L,k)")
+        if st != "ok":
+            rec.violation("tomtom:raises", case, observed=res)
+        else:
+            got = torch.stack(list(res)).numpy()
+            for i in (0, 4095, 4096, 8191, 8192, 8193, 8199):
+                one = torch.stack(list(TT.tomtom([Qhuge[i]], Thuge, n_jobs=1))).numpy()[:, 0]
+                if not same(got[:, i], one):
+                    rec.violation("tomtom:row_of_large_call_differs_from_single_query_call", dict(case, query_index=i), expected=one[0][:4], observed=got[:, i][0][:4])
+                    break
+        del res
     numba.set_num_threads(16)
-    rec.sample(dict(kind="long", query_lengths=qlens, n_jobs=[1, 2, 5, 16], many_queries=1100, nondefault=["n_median_bins 50/7/300", "n_score_bins 50/200", "no hashing"],
+    rec.sample(dict(kind="long", query_lengths=qlens, n_jobs=[1, 2, 5, 16], many_queries=[1100, 8200], nondefault=["n_median_bins 50/7/300", "n_score_bins 50/200", "no hashing"],
                     mixed_storage=names))
 
 
